@@ -221,11 +221,22 @@ func Guard(f func()) (panicked bool, text string) {
 		if r := recover(); r != nil {
 			panicked = true
 			text = fmt.Sprint(r)
-			st := string(debug.Stack())
-			// keep the first goyang frame for diagnosis
-			for _, l := range strings.Split(st, "\n") {
-				if strings.Contains(l, "goyang/pkg") && strings.Contains(l, ".go:") {
-					text += " @" + strings.TrimSpace(l)
+			LastPanicSite = "?"
+			lines := strings.Split(string(debug.Stack()), "\n")
+			for i, l := range lines {
+				// the first goyang frame below the panic
+				if strings.Contains(l, "openconfig/goyang/") && !strings.HasPrefix(l, "\t") {
+					fn := l
+					if j := strings.LastIndex(fn, "("); j > 0 {
+						fn = fn[:j]
+					}
+					if j := strings.LastIndex(fn, "/"); j >= 0 {
+						fn = fn[j+1:]
+					}
+					LastPanicSite = fn
+					if i+1 < len(lines) {
+						text += " @" + strings.TrimSpace(lines[i+1])
+					}
 					break
 				}
 			}
@@ -234,6 +245,9 @@ func Guard(f func()) (panicked bool, text string) {
 	f()
 	return false, ""
 }
+
+// LastPanicSite is the goyang function in which the most recent guarded panic was raised.
+var LastPanicSite string
 
 // StartWatchdog kills the process with a HANG record when one case runs longer than limit.
 func (c *Ctx) StartWatchdog(limit time.Duration) {
